@@ -12,14 +12,16 @@ and the setters that compose them with extra conditions:
 The control-flow skeleton of each of these functions is regenerated from the source on every run
 (Gen/Attr.lean: `skeleton`, `segConds`, `inner`, `table`) and pinned by `decide` theorems in Props/C17.lean.
 
-ASSUMPTION (external function, validated only by the `valid` correspondence stream):
-`np.array(x, dtype=float)` succeeds exactly on rectangular nestings of float-convertible leaves and on
-numeric ndarrays; it returns the shape of the nesting and the leaves in row-major order.  Float-convertible
-leaves are: int/float/numpy real scalars (`num`), Python bool and numpy.bool_ (1.0 / 0.0), `None` (nan) and
-strings that are plain integer literals (optional sign, digits); complex numbers, other strings and other
-objects are not.  Outside the grammar: non-integer floats, inf, strings such as "1e3"/" 2 "/"nan" that
-Python's float() parses, bytes, integers beyond the float range, nestings deeper than numpy's 64 axes,
-objects with `__float__`/`__array__`.
+ASSUMPTION (external functions, validated only by the `valid` correspondence stream):
+`np.array(x)` (no dtype) succeeds exactly on rectangular nestings of leaves and on ndarrays; it returns the shape of
+the nesting and infers a dtype whose kind is: 'O' as soon as one leaf is `None` or another non-numeric object, else
+'U' with a string leaf, else 'c' with a complex leaf, else one of 'f', 'i', 'u', 'b' (int/float/numpy real scalars,
+Python bool, numpy.bool_, float nan).  `np.array(arr, dtype=float)` of such a numeric array keeps the shape and gives
+the leaves in row-major order (True -> 1.0).
+Since the repair of `make_float_array` (strict leaf rule) only numbers are float-compatible entries: `None`,
+strings, bytes, complex numbers and other objects inside a vector are refused.  Outside the grammar: non-integer
+floats, inf, bytes, integers beyond int64 / Fraction / Decimal (object dtype holding numbers only: accepted by the
+code through the element-wise test), nestings deeper than numpy's 64 axes, objects with `__array__`.
 -/
 import MagpyVerif.Gen.Attr
 
@@ -53,15 +55,21 @@ inductive PyVal where
   | none
   /-- Python `bool` -/
   | bool (b : Bool)
-  /-- `int`, `float`, `numpy.int64`, `numpy.float64` carrying an integer value -/
+  /-- `int`, `numpy.int64`, `numpy.int32` -/
   | num (v : Int)
+  /-- `float`, `numpy.float64`, `numpy.float32` carrying an integer value -/
+  | flt (v : Int)
   /-- `numpy.bool_` -/
   | npbool (b : Bool)
+  /-- the float nan (`float('nan')`, `numpy.nan`) -/
+  | nanf
   /-- Python `complex` -/
   | cplx
   | str (s : String)
   /-- any other object (dict, `object()`) -/
   | obj
+  /-- a scipy `Rotation` holding `n` quaternions (a single rotation: n = 1), all of them finite or not -/
+  | rot (n : Nat) (finite : Bool)
   /-- list or tuple -/
   | seq (xs : List PyVal)
   /-- ndarray of an integer or float dtype: shape and row-major data -/
@@ -75,29 +83,18 @@ inductive Err where
   | foreign (exc : String)
   deriving Repr, DecidableEq
 
-/-- value of a nonempty list of decimal digits -/
-def digitsVal (cs : List Char) : Option Nat :=
-  if cs.isEmpty then Option.none
-  else cs.foldl (fun acc c => acc.bind fun n => if c.isDigit then some (n * 10 + (c.toNat - '0'.toNat)) else Option.none) (some 0)
-
-/-- `float(s)` for the strings of the grammar: optional sign followed by digits -/
-def strFloat (s : String) : Option Int :=
-  match s.toList with
-  | '-' :: r => (digitsVal r).map fun n => -(n : Int)
-  | '+' :: r => (digitsVal r).map fun n => (n : Int)
-  | r => (digitsVal r).map fun n => (n : Int)
-
-/-- the float numpy stores for a leaf of a nested sequence (`none`: not float-convertible) -/
+/-- the float stored for a leaf of a nested sequence (`none`: not a number, refused by `make_float_array`) -/
 def entryVal : PyVal → Option FVal
-  | .none => some .nan
   | .bool b => some (.fin (if b then 1 else 0))
   | .num v => some (.fin v)
+  | .flt v => some (.fin v)
   | .npbool b => some (.fin (if b then 1 else 0))
-  | .str s => (strFloat s).map .fin
+  | .nanf => some .nan
   | _ => Option.none
 
 mutual
-/-- shape of `np.array(v, dtype=float)` when the conversion succeeds -/
+/-- shape of the float array `make_float_array` returns (`none`: refused); `makeFloatArray_eq` below shows that the
+statement-by-statement model of the function computes exactly this -/
 def shapeOf : PyVal → Option (List Nat)
   | .seq xs =>
     match shapesOf xs with
@@ -105,13 +102,16 @@ def shapeOf : PyVal → Option (List Nat)
     | some [] => some [0]
     | some (s :: ss) => if ss.all (· == s) then some ((ss.length + 1) :: s) else Option.none
   | .arr sh _ => some sh
-  | .none => some []
+  | .none => Option.none
   | .bool _ => some []
   | .num _ => some []
+  | .flt _ => some []
   | .npbool _ => some []
-  | .str s => if (strFloat s).isSome then some [] else Option.none
+  | .nanf => some []
+  | .str _ => Option.none
   | .cplx => Option.none
   | .obj => Option.none
+  | .rot _ _ => Option.none
 def shapesOf : List PyVal → Option (List (List Nat))
   | [] => some []
   | x :: xs =>
@@ -126,20 +126,21 @@ def prod : List Nat → Nat
   | n :: s => n * prod s
 
 mutual
-/-- the entries of `np.array(v, dtype=float)` in row-major order (an ndarray has exactly `prod shape`
+/-- the entries of the float array in row-major order (an ndarray has exactly `prod shape`
 entries: the data list is read by index, which for a well-formed array is the list itself) -/
 def flat : PyVal → List FVal
   | .seq xs => flatL xs
   | .arr sh d => (List.range (prod sh)).map fun i => .fin (d.getD i 0)
-  | .none => [.nan]
+  | .none => []
   | .bool b => [.fin (if b then 1 else 0)]
   | .num v => [.fin v]
+  | .flt v => [.fin v]
   | .npbool b => [.fin (if b then 1 else 0)]
-  | .str s => match strFloat s with
-    | some v => [.fin v]
-    | Option.none => []
+  | .nanf => [.nan]
+  | .str _ => []
   | .cplx => []
   | .obj => []
+  | .rot _ _ => []
 def flatL : List PyVal → List FVal
   | [] => []
   | x :: xs => flat x ++ flatL xs
@@ -160,6 +161,8 @@ inductive Stored where
   | scalar (x : FVal)
   | array (a : NDArr)
   | text (s : String)
+  /-- a path of `n` quaternions, taken over unchanged from the Rotation object -/
+  | quats (n : Nat)
   deriving Repr, DecidableEq
 
 /-! ### building blocks -/
@@ -174,11 +177,110 @@ def isArrayLike : PyVal → Bool
 def isArrayLikeCheck (v : PyVal) : Except Err Unit :=
   if !isArrayLike v then .error .badUserInput else .ok ()
 
-/-- `make_float_array(inp, msg)`: every exception of `np.array(inp, dtype=float)` becomes the library's error -/
+mutual
+/-- shape of `np.array(inp)` without a dtype: every leaf is a scalar; `none`: ragged nesting (ValueError) -/
+def rawShape : PyVal → Option (List Nat)
+  | .seq xs =>
+    match rawShapes xs with
+    | Option.none => Option.none
+    | some [] => some [0]
+    | some (s :: ss) => if ss.all (· == s) then some ((ss.length + 1) :: s) else Option.none
+  | .arr sh _ => some sh
+  | .none => some []
+  | .bool _ => some []
+  | .num _ => some []
+  | .flt _ => some []
+  | .npbool _ => some []
+  | .nanf => some []
+  | .str _ => some []
+  | .cplx => some []
+  | .obj => some []
+  | .rot _ _ => some []
+def rawShapes : List PyVal → Option (List (List Nat))
+  | [] => some []
+  | x :: xs =>
+    match rawShape x, rawShapes xs with
+    | some s, some ss => some (s :: ss)
+    | _, _ => Option.none
+end
+
+mutual
+/-- the leaves of a nesting that are not entries of an integer/float ndarray -/
+def leaves : PyVal → List PyVal
+  | .seq xs => leavesL xs
+  | .arr _ _ => []
+  | .none => [.none]
+  | .bool b => [.bool b]
+  | .num v => [.num v]
+  | .flt v => [.flt v]
+  | .npbool b => [.npbool b]
+  | .nanf => [.nanf]
+  | .str s => [.str s]
+  | .cplx => [.cplx]
+  | .obj => [.obj]
+  | .rot n f => [.rot n f]
+def leavesL : List PyVal → List PyVal
+  | [] => []
+  | x :: xs => leaves x ++ leavesL xs
+end
+
+/-- `arr.dtype.kind` as far as `make_float_array` distinguishes it -/
+inductive Kind where
+  /-- one of 'f', 'i', 'u', 'b' -/
+  | numeric
+  /-- 'O' -/
+  | object
+  /-- 'U', 'S', 'c', 'M', 'm', 'V' -/
+  | other
+  deriving Repr, DecidableEq
+
+/-- a leaf that makes numpy infer the object dtype: `None` or any object that is not a number or a string -/
+def isObjLeaf : PyVal → Bool
+  | .bool _ => false
+  | .num _ => false
+  | .flt _ => false
+  | .npbool _ => false
+  | .nanf => false
+  | .str _ => false
+  | .cplx => false
+  | _ => true
+def isStrLeaf : PyVal → Bool
+  | .str _ => true
+  | _ => false
+def isCplxLeaf : PyVal → Bool
+  | .cplx => true
+  | _ => false
+
+/-- the dtype kind numpy infers for `np.array(inp)` (assumption in the header) -/
+def kindOf (v : PyVal) : Kind :=
+  let ls := leaves v
+  if ls.any isObjLeaf then .object
+  else if ls.any isStrLeaf then .other
+  else if ls.any isCplxLeaf then .other
+  else .numeric
+
+/-- `isinstance(x, (numbers.Number, np.bool_))` for a leaf -/
+def isNumberLeaf : PyVal → Bool
+  | .bool _ => true
+  | .num _ => true
+  | .flt _ => true
+  | .npbool _ => true
+  | .nanf => true
+  | .cplx => true
+  | _ => false
+
+/-- `make_float_array(inp, msg)` statement by statement (skeleton in Gen/Attr): `arr = np.array(inp)`; a kind other than
+'fiub' is refused unless it is 'O' with numbers only; `np.array(arr, dtype=float)` (TypeError for a complex entry);
+every exception inside the `try` becomes the library's error -/
 def makeFloatArray (v : PyVal) : Except Err NDArr :=
-  match shapeOf v with
-  | Option.none => .error .badUserInput
-  | some sh => .ok ⟨sh, flat v⟩
+  match rawShape v with
+  | Option.none => .error .badUserInput                       -- ValueError of np.array(inp)
+  | some sh =>
+    let kind := kindOf v
+    if kind != .numeric && (kind != .object || !(leaves v).all isNumberLeaf) then
+      .error .badUserInput                                    -- raise TypeError inside the try
+    else if (leaves v).any isCplxLeaf then .error .badUserInput   -- TypeError of the float conversion
+    else .ok ⟨sh, flat v⟩
 
 /-- `check_array_shape(inp, dims, shape_m1, length, msg)`; `shapeM1 = -1` stands for "any", `length = 0` for None.
 `inp.shape[-1]` and `len(inp)` of a 0-d array raise IndexError / TypeError. -/
@@ -199,6 +301,8 @@ def checkArrayShape (a : NDArr) (dims : List Nat) (shapeM1 : Int) (length : Nat)
 def isNumber : PyVal → Bool
   | .bool _ => true
   | .num _ => true
+  | .flt _ => true
+  | .nanf => true
   | .cplx => true
   | _ => false
 
@@ -206,6 +310,8 @@ def isNumber : PyVal → Bool
 def pyFloat : PyVal → Except Err FVal
   | .bool b => .ok (.fin (if b then 1 else 0))
   | .num v => .ok (.fin v)
+  | .flt v => .ok (.fin v)
+  | .nanf => .ok .nan
   | _ => .error (.foreign "TypeError")
 
 /-! ### validators -/
@@ -267,8 +373,34 @@ def checkVector2 (shape : List (Option Nat)) (v : PyVal) : Except Err Stored :=
 def verticesCfg : Gen.Attr.Row :=
   ⟨"input_checks", "check_format_input_vertices", "check_format_input_vector", [2], 3, 0, true, false, false, false⟩
 
-/-- `check_format_input_vertices(inp)` -/
-def checkVertices (v : PyVal) : Except Err Stored :=
+def isNoneLeaf : PyVal → Bool
+  | .none => true
+  | _ => false
+
+/-- one row under `arr[np.equal(arr, None).all(axis=1)] = np.nan`: a row of `None` only becomes a row of nan -/
+def rowNan : PyVal → PyVal
+  | .seq xs => if xs.all isNoneLeaf then .seq (xs.map fun _ => .nanf) else .seq xs
+  | r => r
+
+/-- `none_rows_to_nan(inp)` for a list/tuple: when `np.array(inp)` is two-dimensional (of object kind — implied by the
+presence of a `None`), the rows that consist of `None` only become rows of nan; a ragged nesting (ValueError, caught) or
+another rank is returned unchanged.  (The code returns the converted array; for everything that follows, an array and
+the nesting it was built from are interchangeable.) -/
+def noneRowsToNan (v : PyVal) : PyVal :=
+  match v with
+  | .seq rows =>
+    match rawShape (.seq rows) with
+    | some [_, _] => .seq (rows.map rowNan)
+    | _ => .seq rows
+  | v => v
+
+/-- `isinstance(inp, (list, tuple))` -/
+def isSeq : PyVal → Bool
+  | .seq _ => true
+  | _ => false
+
+/-- `check_format_input_vertices` after the separator rows were replaced -/
+def checkVerticesCore (v : PyVal) : Except Err Stored :=
   match checkVector verticesCfg v with
   | .error e => .error e
   | .ok (.array a) =>
@@ -276,6 +408,10 @@ def checkVertices (v : PyVal) : Except Err Stored :=
     | Option.none => .error (.foreign "IndexError")          -- inp.shape[0]
     | some n => if n < 2 then .error .badUserInput else .ok (.array a)
   | .ok s => .ok s
+
+/-- `check_format_input_vertices(inp)` -/
+def checkVertices (v : PyVal) : Except Err Stored :=
+  checkVerticesCore (if isSeq v then noneRowsToNan v else v)
 
 /-- the call of check_format_input_vector inside check_format_input_cylinder_segment -/
 def segmentCfg : Gen.Attr.Row :=
@@ -295,6 +431,83 @@ def checkCylSeg (v : PyVal) : Except Err Stored :=
       if case2 || case3 || case4 || case5 then .error .badUserInput else .ok (.array a)
     | _ => .error (.foreign "ValueError")                 -- tuple unpacking
   | .ok s => .ok s
+
+/-! ### arguments of the transform methods and of getB/getH: start, degrees, field, output, anchor, angle, axis, orientation -/
+
+/-- `check_start_type(inp)`: `isinstance(inp, (int, np.integer)) or (isinstance(inp, str) and inp == "auto")`; returns None -/
+def checkStart : PyVal → Except Err Stored
+  | .num _ => .ok .none
+  | .bool _ => .ok .none                   -- Python's bool is an int
+  | .str s => if s == "auto" then .ok .none else .error .badUserInput
+  | _ => .error .badUserInput
+
+/-- `check_degree_type(inp)`: `isinstance(inp, bool)`; returns None -/
+def checkDegrees : PyVal → Except Err Stored
+  | .bool _ => .ok .none
+  | _ => .error .badUserInput
+
+/-- `check_field_input(inp)`: `isinstance(inp, str) and inp in tuple("BHMJ")`; returns None -/
+def checkField : PyVal → Except Err Stored
+  | .str s => if ["B", "H", "M", "J"].contains s then .ok .none else .error .badUserInput
+  | _ => .error .badUserInput
+
+/-- `check_getBH_output_type(output)`: `output not in ("ndarray", "dataframe")` raises ValueError (pandas is installed) -/
+def checkOutput : PyVal → Except Err Stored
+  | .str s => if s == "ndarray" || s == "dataframe" then .ok (.text s) else .error (.foreign "ValueError")
+  | _ => .error (.foreign "ValueError")
+
+/-- `inp == 0` for an instance of numbers.Number (a complex zero is outside the grammar) -/
+def isZeroNumber : PyVal → Bool
+  | .num v => v == 0
+  | .flt v => v == 0
+  | .bool b => !b
+  | _ => false
+
+def anchorCfg : Gen.Attr.Row :=
+  ⟨"input_checks", "check_format_input_anchor", "check_format_input_vector", [1, 2], 3, 0, true, false, false, false⟩
+def axisCfg : Gen.Attr.Row :=
+  ⟨"input_checks", "check_format_input_axis", "check_format_input_vector", [1], 3, 0, false, false, false, false⟩
+def angleCfg : Gen.Attr.Row :=
+  ⟨"input_checks", "check_format_input_angle", "check_format_input_vector", [1], -1, 0, false, false, false, false⟩
+
+/-- `check_format_input_anchor(inp)` -/
+def checkAnchor (v : PyVal) : Except Err Stored :=
+  if isNumber v && isZeroNumber v then .ok (.array ⟨[3], [.fin 0, .fin 0, .fin 0]⟩)
+  else checkVector anchorCfg v
+
+/-- `check_format_input_angle(inp)`: `float(inp)` of a number is not guarded (TypeError for a complex number) -/
+def checkAngle (v : PyVal) : Except Err Stored :=
+  if isNumber v then
+    match pyFloat v with
+    | .ok x => .ok (.scalar x)
+    | .error e => .error e
+  else checkVector angleCfg v
+
+/-- the part of `check_format_input_axis` for an input that is not a string: the vector check, then `np.all(inp == 0)` -/
+def axisVec (v : PyVal) : Except Err Stored :=
+  match checkVector axisCfg v with
+  | .error e => .error e
+  | .ok (.array a) => if a.data.all (· == .fin 0) then .error .badUserInput else .ok (.array a)
+  | .ok s => .ok s
+
+/-- `check_format_input_axis(inp)` -/
+def checkAxis : PyVal → Except Err Stored
+  | .str s =>
+    if s == "x" then .ok (.array ⟨[3], [.fin 1, .fin 0, .fin 0]⟩)
+    else if s == "y" then .ok (.array ⟨[3], [.fin 0, .fin 1, .fin 0]⟩)
+    else if s == "z" then .ok (.array ⟨[3], [.fin 0, .fin 0, .fin 1]⟩)
+    else .error .badUserInput
+  | v => axisVec v
+
+/-- `check_format_input_orientation(inp, init_format)`: the type test, `None` -> unit quaternion, the finiteness test of repo
+commit c681ce5, and (init_format, i.e. constructor and setter) the refusal of an empty Rotation -/
+def checkOrientation (initFormat : Bool) : PyVal → Except Err Stored
+  | .none => .ok (.quats 1)
+  | .rot n finite =>
+    if !finite then .error .badUserInput
+    else if initFormat && n == 0 then .error .badUserInput
+    else .ok (.quats n)
+  | _ => .error .badUserInput
 
 /-! ### setters -/
 
